@@ -21,17 +21,17 @@ ASSUMPTIONS = ["header values are C strings without NUL, CR, LF (as delivered by
                "item-level cases (op p) use non-empty, right-trimmed items, as strListGetItem produces them",
                "0 <= clen <= INT64_MAX (Http::Stream::buildRangeHeader refuses content_length < 0 before calling canonize)"]
 MANIFEST = {
-    "text": "partial: canon_sound_complete (every parse-reachable spec list, every 0<=clen: canonize raises no overflow/assert, each "
-            "canonical range is non-empty, inside [0,clen), and the canonical list is the order-preserving image of the satisfiable "
-            "specs with exactly their bytes) and parse_rfc_specs (every RFC 7233 spec list with numbers < 2^63-1, any comma/OWS "
-            "layout: parsed to exactly those specs) are proved for all inputs; invalid_item_ignores_header holds for what squid's own "
-            "spec parser refuses. Two statements of the property are false of the real code and proved as counterexamples: "
-            "last-byte-pos = 2^63-1 overflows int64 in parseInit (UBSan-confirmed), and headers with syntactically invalid specs such "
-            "as `0-5abc`, `+1-+5`, `0x10-20`, `-5x`, `5-6-7` are not ignored (strtoll laxness)",
+    "text": "full for the spec level, known exception at the list level: canon_sound_complete (every accepted header, every "
+            "0<=clen<=INT64_MAX: canonize raises no overflow/assert, each canonical range is non-empty, inside [0,clen), the canonical "
+            "list is the order-preserving image of the satisfiable specs with exactly their bytes), rfc_header_end_to_end (every RFC 7233 "
+            "spec list with numbers <= INT64_MAX in any comma/OWS layout is read as exactly those specs and canonised to exactly their "
+            "bytes), invalid_spec_ignores_header (an item that is not 1*DIGIT-1*DIGIT / 1*DIGIT- / -1*DIGIT with last>=first makes the "
+            "whole header ignored) and no_overflow (no input makes parsing or canonicalisation overflow or assert) are proved for all "
+            "inputs of the repaired parser (/repo cc9716a). Remaining known finding: strListGetItem treats VT/FF as list white space",
     "note": "trusted: Lean kernel, harness, python oracle; modelled not verified: strtoll/errno, String::caseCmp; clen < 0 is outside "
-            "the domain (guarded by the only caller)",
-    "technique": "Lean 4 proof (checked int64 arithmetic, induction over the item loop) + probing translator + ASan/UBSan differential "
-                 "run with a big-integer set oracle",
+            "the domain (guarded by the only caller). `items` in invalid_spec_ignores_header are the items as strListGetItem cuts them",
+    "technique": "Lean 4 proof (checked int64 arithmetic, induction over the item loop, exact characterisation of parseBytePos) + "
+                 "probing translator + ASan/UBSan differential run with a big-integer set oracle",
 }
 
 I64MAX = (1 << 63) - 1
@@ -82,10 +82,10 @@ def pos_near(rng, clen):
     if k == 5:
         return clen + rng.range(1, 1000)
     if k == 6:
-        return rng.choice([1, 2, 255, 65535, (1 << 31) - 1, 1 << 31, (1 << 32) - 1, 1 << 32, (1 << 62), I64MAX - 2, I64MAX - 1])
+        return rng.choice([1, 2, 255, 65535, (1 << 31) - 1, 1 << 31, (1 << 32) - 1, 1 << 32, (1 << 62), I64MAX - 2, I64MAX - 1, I64MAX])
     if k == 7 and clen > 3:
         return clen // 2 + rng.range(-1, 1)
-    return rng.range(0, max(1, min(clen * 2, I64MAX - 1)))
+    return rng.range(0, max(1, min(clen * 2, I64MAX)))
 
 
 def random_spec(rng, clen):
@@ -95,9 +95,6 @@ def random_spec(rng, clen):
         l = pos_near(rng, clen)
         if l < f and not rng.chance(1, 12):
             f, l = l, f
-        if l >= I64MAX:            # last-byte-pos = INT64_MAX stops the process (UBSan, known finding): only the few explicit cases
-            l = I64MAX - 1
-            f = min(f, l)
         return ("range", f, l)
     if k < 7:
         return ("from", pos_near(rng, clen))
@@ -125,7 +122,7 @@ def render(rng, specs):
     return out
 
 
-BOUNDARY_NUMS = [b"0", b"1", b"9223372036854775805", b"9223372036854775806", b"9223372036854775808", b"18446744073709551615",
+BOUNDARY_NUMS = [b"0", b"1", b"9223372036854775805", b"9223372036854775806", b"9223372036854775807", b"9223372036854775808", b"18446744073709551615",
                  b"18446744073709551616", b"99999999999999999999999999", b"00000000000000000000000000000007", b"4294967296",
                  b"2147483648"]
 BOUNDARY_HEADERS = [b"bytes=", b"bytes", b"byte=0-1", b"bytes =0-1", b" bytes=0-1", b"bytes=0-1 ", b"bytes= 0-1", b"bytes=\t0-1", b"bytes=,", b"bytes=,,0-1,,",
@@ -183,9 +180,7 @@ def small_lists(hi, maxlen):
 
 
 def cases(rng, tier):
-    """Order matters: the framework examines the first 40 failing cases only, and headers with leniently read specs (known
-    findings) fail by the hundred. So everything whose failure would be new (exhaustive scopes, valid specs, numerals) comes first,
-    the mutation streams last."""
+    """exhaustive scopes, numerals and valid streams first, the mutation streams last"""
     thorough = tier == "thorough"
     hi, maxc = (4, 5) if thorough else (2, 3)
     for specs in small_lists(hi, 2):
@@ -202,7 +197,6 @@ def cases(rng, tier):
                 yield mk(v, clen)
     later = []
     n = 16000 if thorough else 2500
-    ub_left = 3
     for i in range(n):
         clen = rng.choice(CLENS) if rng.chance(2, 3) else rng.range(0, rng.choice([20, 5000, 1 << 33, I64MAX]))
         specs = [random_spec(rng, clen) for _ in range(rng.choice([1, 1, 2, 2, 3, 4, 6]))]
@@ -213,9 +207,8 @@ def cases(rng, tier):
         elif k < 7:     # boundary numeral spliced into a valid list
             num = rng.choice(BOUNDARY_NUMS)
             extra = rng.choice([num + b"-", b"-" + num, b"0-" + num, num + b"-" + num])
-            if ub_left > 0 and rng.chance(1, 10):      # last-byte-pos = INT64_MAX: UBSan stops the process (known finding)
+            if rng.chance(1, 6):      # regression: last-byte-pos = INT64_MAX used to overflow (fixed in cc9716a)
                 extra = rng.choice([b"0-9223372036854775807", b"9223372036854775807-9223372036854775807"])
-                ub_left -= 1
             parts = v.split(b",")
             parts.insert(rng.below(len(parts)) + 1, extra)
             yield mk(b",".join(parts), clen)
@@ -369,16 +362,7 @@ def oracle(line, impl):
     return "unknown op"
 
 
-def compare(line, impl, model):
-    if impl == model:
-        return True
-    # undefined behaviour in the model allows any behaviour of the real code (UBSan stops it; the oracle judges other answers)
-    if model == "ub":
-        return True
-    return False
-
-
-# ---- classification of failures into the known findings (narrow)
+# ---- classification of failures into the remaining known finding (narrow)
 
 def squid_items(body):
     """list items the way strListGetItem(…, ',') cuts them (quote aware), right-trimmed by isspace; stops at a blank item"""
@@ -400,46 +384,23 @@ def squid_items(body):
                 i += 1
         item = body[start:i].rstrip(CWS)
         if not item:
-            return items, (start < i)      # second: a blank (VT/FF only) item ended the list early
+            return items
         items.append(item)
 
 
-LAX_SUFFIX = re.compile(rb"-[ \t\n\x0b\x0c\r]*[+-]?\d+", re.S)
-LAX_RANGE = re.compile(rb"[ \t\n\x0b\x0c\r]*\+?\d+[^-]*-(?:[ \t\n\x0b\x0c\r]*[+-]?\d+.*)?\Z", re.S)
-
-
-LAX_NEGZERO = re.compile(rb"[ \t\n\x0b\x0c\r]+-0+(?:[^0-9].*)?\Z", re.S)    # white space, then "-0" read as first-byte-pos 0
-
-
-def lax_item(item):
-    """a spelling that is a spec once strtoll's leniency (leading C white space, sign, ignored trailing text) is granted"""
-    if len(item) < 2:
-        return False
-    if item[:1] == b"-":
-        return LAX_SUFFIX.match(item) is not None
-    return LAX_RANGE.match(item) is not None or LAX_NEGZERO.match(item) is not None
-
-
 def classify(line, impl, why):
+    """C28-list-whitespace only: the header is not a byte-range-set for the oracle, it contains VT or FF, and every item - cut
+    the way strListGetItem cuts, i.e. with VT/FF trimmed and a VT/FF-only element ending the list - is a strict spec."""
     try:
         op, a, b = line.split(" ")
         first = unhx(a)
     except ValueError:
         return None
-    if impl.startswith("abort:") and "HttpHdrRange.cc" in impl and "signed_integer_overflow" in impl and b"9223372036854775807" in first:
-        return "C28-last-pos-overflow"
-    if why and why.startswith(INVALID_NOT_IGNORED) and impl.startswith("ok "):
-        if op == "p":
-            return "C28-lax-spec" if lax_item(first) else None
-        if first[:6].lower() != b"bytes=":
-            return None
-        items, blank_end = squid_items(first[6:])
-        if items and all(strict_spec(i) is not None or lax_item(i) for i in items):
-            # either some item is lax, or only the list layer is (VT/FF treated as list white space, blank item ends the list)
-            if any(strict_spec(i) is None for i in items):
-                return "C28-lax-spec"
-            if b"\x0b" in first or b"\x0c" in first:
-                return "C28-list-whitespace"
+    if op == "r" and why and why.startswith(INVALID_NOT_IGNORED) and impl.startswith("ok ") and first[:6].lower() == b"bytes=" \
+            and (b"\x0b" in first or b"\x0c" in first):
+        items = squid_items(first[6:])
+        if items and all(strict_spec(i) is not None for i in items):
+            return "C28-list-whitespace"
     return None
 
 
